@@ -226,6 +226,13 @@ def samples_of(traces, n=3, pick=None):
     return out
 
 
+TRUSTED = ["Lean 4.33.0 kernel", "axioms ⊆ {propext, Classical.choice, Quot.sound} (audited per theorem this run)",
+           "the transcribed models + the shadow heap are the specification; real collections are sampled by the runs recorded below",
+           "hx_gc / VerifVM binding (harness/src/vm.rs, rt.rs, bin/hx_gc.rs) reports real memory faithfully",
+           "vlib/gcrun.py + checks/gcweak_common.py only transport lines between hx_gc and the Lean monitor"]
+LEVEL = "proof (of the monitor's model; partial w.r.t. the code)"
+
+
 def run_check(pid, argv, modules, theorems, keys, make_suite, oracle, corpus, stats, rule, assumptions, directives=None,
               malformed=None, comp="gcw", pre=(), extra_trusted=(), jobs=8, post=None):
     """keys: verdict keys of this property; make_suite(seed, tier) -> [Program]; oracle(trace) -> [(idx, key, what)];
@@ -237,6 +244,23 @@ def run_check(pid, argv, modules, theorems, keys, make_suite, oracle, corpus, st
     ap.add_argument("--replay")
     a = ap.parse_args(argv)
     t0 = time.time()
+    r = run_parts(pid, a.tier, a.seed, modules, theorems, keys, make_suite, oracle, corpus, stats, rule, directives=directives,
+                  malformed=malformed, comp=comp, pre=pre, jobs=jobs, post=post, replay=a.replay)
+    if isinstance(r, int):
+        return r
+    lean, corr, violations = r
+    return E.finish(pid, a.tier, a.seed, t0, lean, corr, violations, level=LEVEL, assumptions=assumptions,
+                    trusted=TRUSTED + list(extra_trusted))
+
+
+def run_parts(pid, tier, seed, modules, theorems, keys, make_suite, oracle, corpus, stats, rule, directives=None,
+              malformed=None, comp="gcw", pre=(), jobs=8, post=None, replay=None):
+    """the check without its tail: returns (lean dict, correspondence dict, [Violation]) — nothing is written, nothing
+    exits (an int is returned only for --replay)."""
+    class A:
+        pass
+    a = A()
+    a.tier, a.seed, a.replay = tier, seed, replay
     violations = []
     lean = E.lean_check(modules, theorems, fresh=False)
     lean["targets"] = modules
@@ -248,7 +272,7 @@ def run_check(pid, argv, modules, theorems, keys, make_suite, oracle, corpus, st
         G.hx_gc_exe("fs_main", True)
     except RuntimeError as e:
         violations.append(Violation("harness-build-failed", str(e)[-1500:], found_input=False, broken="hx_gc build"))
-        return E.finish(pid, a.tier, a.seed, t0, lean, {}, violations)
+        return lean, {}, violations
     keys = tuple(keys)
     if a.replay:
         d = json.load(open(a.replay))
@@ -323,9 +347,4 @@ def run_check(pid, argv, modules, theorems, keys, make_suite, oracle, corpus, st
         "run_s": round(t2 - t1, 1), "monitor_s": round(t3 - t2, 1), "verdict_keys": list(keys) + list(FATAL),
         "runs_died": sum(1 for t in traces if t.rc != 0),
     }
-    return E.finish(pid, a.tier, a.seed, t0, lean, corr, violations, level="proof (of the monitor's model; partial w.r.t. the code)",
-                    assumptions=assumptions,
-                    trusted=["Lean 4.33.0 kernel", "axioms ⊆ {propext, Classical.choice, Quot.sound} (audited per theorem this run)",
-                             "the transcribed models + the shadow heap are the specification; real collections are sampled by the runs recorded below",
-                             "hx_gc / VerifVM binding (harness/src/vm.rs, rt.rs, bin/hx_gc.rs) reports real memory faithfully",
-                             "vlib/gcrun.py + checks/gcweak_common.py only transport lines between hx_gc and the Lean monitor", *extra_trusted])
+    return lean, corr, violations
